@@ -178,7 +178,7 @@ def main(tier, replay):
     failing, err = cl.run_cases(cases, "c17")
     if err:
         raise RuntimeError("in-kernel correspondence could not be evaluated:\n" + err)
-    for (i, k) in failing:
+    for (i, k) in sorted(failing, key=lambda ik: len(json.dumps(scripts[ik[0]])))[:2]:
         s = scripts[i]
         model = cl.predict([c for c in cases if c[0] == i][0], k, "c17")
         findings.setdefault("C17 model/implementation disagree", (
